@@ -435,6 +435,29 @@ def make_ap(src, fields, level_classes, layouts=None, ndims=3, time=0.5, cross=(
             "levels": levels}
 
 
+def twin_ap(src, fields, ndims, nlev, layouts=None, time=0.5):
+    """A hierarchy whose boxes all have the SAME number of cells (per level) but not the same shape -- 4x2(x4) next to 2x4(x4),
+    8x4x4 next to 4x4x8 -- with one-digit indices throughout, so that their FAB headers are equally long and their FABs
+    equally large: nothing but the index range tells such boxes apart."""
+    if ndims == 3:
+        lv0 = [([0, 0, 0], [3, 1, 3]), ([4, 0, 0], [5, 3, 3]), ([0, 2, 0], [3, 3, 3])]
+        lv1 = [([0, 0, 0], [7, 3, 3]), ([0, 4, 0], [3, 7, 7])]
+        dom = [6, 4, 4]
+    else:
+        lv0 = [([0, 0], [3, 1]), ([4, 0], [5, 3]), ([0, 2], [3, 3])]
+        lv1 = [([0, 0], [7, 1]), ([0, 2], [3, 5])]
+        dom = [6, 4]
+    levels = []
+    for lv, bx in enumerate([lv0, lv1][:nlev]):
+        boxes = [{"lo": list(a), "hi": list(b)} for a, b in bx]
+        if layouts is not None and layouts[lv] is not None:
+            file, disk = list(layouts[lv]["file"]), {str(k): list(v) for k, v in layouts[lv]["disk"].items()}
+        else:
+            file, disk = layout_identity(len(boxes))
+        levels.append({"boxes": boxes, "file": file, "disk": disk})
+    return {"src": src, "ndims": ndims, "fields": list(fields), "time": time, "dom": dom, "levels": levels}
+
+
 # ---------------------------------------------------------------- concrete field names
 
 # Abstract field names of the model instances ("a", "b", ... and the unknown name "zz") are concretised through one of these
